@@ -37,7 +37,7 @@ def run(prog, tier):
     return R
 
 
-def check_generator(R, prog, mod, gen, sampler):
+def _shape_generator(R, prog, mod, gen, sampler):
     fi = prog.func(mod, gen)
     cfg = CFG(fi.node)
     stmts = stmts_in(fi.node)
@@ -89,7 +89,7 @@ def check_generator(R, prog, mod, gen, sampler):
             R.bad(F("KN-GATE", fi, "%s insertion loop" % gen, "exactly one constraint must be added per sampled element", cs))
 
 
-def check_sampler(R, prog, mod, sampler, enum, pred):
+def _shape_sampler(R, prog, mod, sampler, enum, pred):
     fi = prog.func(mod, sampler)
     k, n, m, pa = fi.params[:4]
     cfg = CFG(fi.node)
@@ -172,7 +172,7 @@ def check_sampler(R, prog, mod, sampler, enum, pred):
                 "random.sample(list, %s)" % (enum, k, n, pa, m, m)))
 
 
-def check_enumerator(R, prog, mod, enum, pred):
+def _shape_enumerator(R, prog, mod, enum, pred):
     fi = prog.func(mod, enum)
     k, n, pa = fi.params[:3]
     outer = [s for s in fi.node.body if isinstance(s, ast.For)]
@@ -217,7 +217,7 @@ def check_enumerator(R, prog, mod, enum, pred):
                         "many times, so the dense sample consists of copies of the last element" % (nm.id, enum), st))
 
 
-def check_predicate(R, prog, mod, pred):
+def _shape_predicate(R, prog, mod, pred):
     fi = prog.func(mod, pred)
     ap = fi.params[-1]
     outer = [s for s in fi.node.body if isinstance(s, ast.For) and src(s.iter) == ap]
@@ -266,11 +266,379 @@ def check_predicate(R, prog, mod, pred):
 
 
 def check_cli(R, prog):
+    """--plant hands the generator exactly one total assignment over 1..n (random signs); without it no planted assignment.  Decided by
+    folding build_formula over the option values with the generator as a symbolic term (sa/helperfold.py)."""
+    from .. import helperfold as hf
+    from ..ql import Unknown
     for cls, gen in (("RandCmdHelper", "RandomKCNF"), ("RandXorHelper", "RandomKXOR")):
         fi = prog.func("cnfgen.clihelpers.simple_helpers", cls + ".build_formula")
-        t = src(fi.node)
-        ok = "planted = [random.choice([-1, 1]) * v for v in range(1, n + 1)]" in t and "planted_assignments=[planted]" in t and "n = args.n" in t
-        if ok:
-            R.ok("KN-GATE", "%s --plant: one total assignment over 1..n with random signs" % cls, fi.key)
+        mf = hf.module_level_functions(fi.module)
+        bad = None
+        n_inst = 0
+        try:
+            for k, n, m, plant in [(k, n, m, pl) for k in (0, 2) for n in (0, 1, 3) for m in (0, 2) for pl in (False, True, None, 0, 1)]:
+                out, draws, _ = hf.fold_once(fi.node, mf, {"k": k, "n": n, "m": m, "plant": plant})
+                what = "%s with k=%d n=%d m=%d plant=%r" % (cls, k, n, m, plant)
+                if out[0] != "value" or not isinstance(out[1], hf.Term) or out[1]._n != "call" or out[1]._a[0] != hf.Term(gen):
+                    bad = "%s does not return a call of %s: %r" % (what, gen, out[1])
+                    break
+                pos, kw = out[1]._a[1:], dict(out[1]._k)
+                if tuple(pos[:3]) != (k, n, m) and (kw.get("k"), kw.get("n"), kw.get("m")) != (k, n, m):
+                    bad = "%s calls %s with %r: the first arguments must be k, n, m" % (what, gen, pos)
+                    break
+                pa = kw.get("planted_assignments", pos[4] if len(pos) > 4 else None)
+                if not plant:
+                    if pa not in (None, ("list",)):
+                        bad = "%s passes the planted assignments %r although --plant is not given" % (what, pa)
+                        break
+                else:
+                    if not (isinstance(pa, tuple) and pa[:1] == ("list",) and len(pa) == 2 and isinstance(pa[1], tuple) and
+                            [abs(x) for x in pa[1][1:]] == list(range(1, n + 1))):
+                        bad = "%s passes planted_assignments=%r: --plant must pass exactly one total assignment [+-1, .., +-%d]" % (what, pa, n)
+                        break
+                    if len(draws) != n or any(d[0] != "choice" or sorted(d[1][1:]) != [-1, 1] for d in draws):
+                        bad = "%s draws %r: each of the %d signs must be one random choice between -1 and 1" % (what, draws, n)
+                        break
+                if kw.get("formula_class") != hf.Term("formula_class"):
+                    bad = "%s does not hand formula_class to %s" % (what, gen)
+                    break
+                n_inst += 1
+        except Unknown as e:
+            R.unknown("KN-GATE", "%s planted assignment" % cls, fi.key, "cannot fold build_formula: %s" % e)
+            continue
+        if bad:
+            R.bad(F("KN-GATE", fi, "%s planted assignment" % cls, bad))
         else:
-            R.bad(F("KN-GATE", fi, "%s planted assignment" % cls, "--plant must pass one total assignment [+-v for v in 1..n]"))
+            R.ok("KN-GATE", "%s: %d option settings folded; --plant passes one total assignment over 1..n with random signs, otherwise none"
+                 % (cls, n_inst), fi.key)
+
+
+# ---------------------------------------------------------------------------- bounded folding of the four small kernels (sa/fold.py)
+def _kind(mod):
+    return "cnf" if mod == KCNF else "xor"
+
+
+def _module_functions(prog, mod):
+    return {n.name: n for n in prog.module(mod).tree.body if isinstance(n, ast.FunctionDef)}
+
+
+def _assignment_pool(nv):
+    """total and partial assignments over 1..nv as lists of literals (no opposite literals)"""
+    import itertools
+    out = []
+    for signs in itertools.product([1, -1, 0], repeat=nv):
+        out.append([s_ * (i + 1) for i, s_ in enumerate(signs) if s_])
+    return out
+
+
+def _spec_sat(kind, sample, assignments):
+    """documented meaning; 'undefined' when a parity is evaluated under an assignment that leaves one of its variables unset"""
+    if kind == "cnf":
+        return all(any(l in a for l in sample) for a in assignments)
+    X, b = sample
+    for a in assignments:
+        if any(x not in a and -x not in a for x in X):
+            return "undefined"
+        if sum(1 for x in X if x in a) % 2 != b:
+            return False
+    return True
+
+
+def _folder(prog, mod, rnd=None):
+    from ..fold import Folder
+    f = Folder(env={}, fuel=400000)
+    f.module_functions = _module_functions(prog, mod)
+    if rnd is not None:
+        f.globals = {"random": rnd}
+    return f
+
+
+_VERDICTS = {}
+
+
+def verdict(prog, mod, which):
+    key = (id(prog), mod, which)
+    if key not in _VERDICTS:
+        from ..fold import Raised
+        from ..ql import Unknown
+        try:
+            _VERDICTS[key] = {"pred": semantic_predicate, "enum": semantic_enumerator, "sampler": semantic_sampler,
+                              "gen": semantic_generator}[which](prog, mod)
+        except Unknown as e:
+            _VERDICTS[key] = (None, "cannot fold: %s" % e)
+        except Raised as r:
+            _VERDICTS[key] = (None, "unexpected %s while folding" % r.cls)
+    return _VERDICTS[key]
+
+
+def semantic_predicate(prog, mod):
+    """the planted-assignment predicate, exhaustively over samples on 2 variables and lists of 0..2 (partial) assignments"""
+    import itertools
+    from ..fold import Raised
+    kind = _kind(mod)
+    name = "clause_satisfied" if kind == "cnf" else "parity_satisfied"
+    fi = prog.func(mod, name)
+    pool = _assignment_pool(2)
+    if kind == "cnf":
+        samples = [[], [1], [-1], [2], [1, 2], [1, -2], [-1, 2], [-1, -2]]
+    else:
+        samples = [(list(X), b) for X in ([], [1], [2], [1, 2]) for b in (0, 1)]
+    n = 0
+    for sample in samples:
+        for r in range(0, 3):
+            for asg in itertools.combinations(pool, r):
+                asg = [list(a) for a in asg]
+                want = _spec_sat(kind, sample, asg)
+                f = _folder(prog, mod)
+                args = [list(sample), asg] if kind == "cnf" else [list(sample[0]), sample[1], asg]
+                try:
+                    got = f.call_function(fi.node, args, {})
+                except Raised as x:
+                    got = "undefined" if x.cls.startswith("ValueError") else "raises %s" % x.cls
+                if want == "undefined":
+                    # the documentation leaves partial assignments to parities open: False (falsified by an earlier assignment) or ValueError
+                    if got in ("undefined", False):
+                        n += 1
+                        continue
+                if got != want:
+                    return False, "%s(%s) under the planted assignments %s gives %r; the documented value is %r" % (name, sample, asg, got, want)
+                n += 1
+    return True, "%s folded on %d (sample, planted assignments) instances" % (name, n)
+
+
+def semantic_enumerator(prog, mod):
+    """the dense enumerator yields every width-k sample over 1..n that all planted assignments satisfy, each once, each a fresh object"""
+    import itertools
+    from ..fold import Raised
+    kind = _kind(mod)
+    name = "all_clauses" if kind == "cnf" else "all_good_parities"
+    fi = prog.func(mod, name)
+    cnt = 0
+    for n in range(0, 4):
+        total = [[(i + 1) if (j >> i) & 1 else -(i + 1) for i in range(n)] for j in range(2 ** n)]
+        plans = [[], total[:1], total[-1:] + total[:1]] if n else [[]]
+        for k in range(0, n + 2):
+            for asg in plans:
+                f = _folder(prog, mod)
+                try:
+                    got = f.call_function(fi.node, [k, n, [list(a) for a in asg]], {})
+                except Raised as x:
+                    return False, "%s(%d, %d, %s) raises %s" % (name, k, n, asg, x.cls)
+                got = list(got or [])
+                if kind == "cnf":
+                    want = [[p * v for p, v in zip(pol, dom)] for dom in itertools.combinations(range(1, n + 1), k)
+                            for pol in itertools.product([-1, 1], repeat=k)]
+                    want = [c for c in want if _spec_sat(kind, c, asg) is True]
+                    norm = lambda c: tuple(c)
+                else:
+                    want = [(list(X), b) for X in itertools.combinations(range(1, n + 1), k) for b in (0, 1)]
+                    want = [c for c in want if _spec_sat(kind, c, asg) is True]
+                    norm = lambda c: (tuple(c[0]), c[1])
+                try:
+                    g = [norm(c) for c in got]
+                except (TypeError, IndexError):
+                    return False, "%s(%d, %d, %s) yields %r" % (name, k, n, asg, got[:3])
+                if sorted(g) != sorted(norm(c) for c in want):
+                    return False, ("%s(%d, %d, planted=%s) yields %s; the samples of width %d over 1..%d satisfied by the planted assignments are %s"
+                                   % (name, k, n, asg, got, k, n, want))
+                if len({id(c) for c in got}) != len(got):
+                    return False, "%s(%d, %d, ..) yields the same object more than once" % (name, k, n)
+                cnt += 1
+    return True, "%s folded on %d (k, n, planted assignments) instances and compared with the full enumeration" % (name, cnt)
+
+
+class _Rng:
+    """scripted stand-in for the random module; `period` controls how soon the answers repeat (repeats exercise the duplicate test, a long
+    period lets sparse sampling succeed)"""
+
+    def __init__(self, period):
+        self.t, self.period, self.bad = 0, period, None
+
+    def _tick(self):
+        self.t += 1
+        return self.t % self.period
+
+    def sample(self, pop, k):
+        pop = list(pop)
+        if k > len(pop) or k < 0:
+            raise ValueError
+        r = self._tick() % max(len(pop), 1)
+        out = (pop[r:] + pop[:r])[:k]
+        return out[::-1]
+
+    def choice(self, seq):
+        seq = list(seq)
+        if sorted(seq) != [-1, 1]:
+            self.bad = "random.choice is asked to choose from %r, not from the two signs" % (seq,)
+        return seq[self._tick() % len(seq)]
+
+    def randint(self, a, b):
+        if (a, b) != (0, 1):
+            self.bad = "random.randint(%r, %r) is not a random bit" % (a, b)
+        return a + self._tick() % (b - a + 1)
+
+    def seed(self, x=None):
+        pass
+
+    def __getattr__(self, name):
+        from ..ql import Unknown
+        raise Unknown("random.%s is not modelled" % name)
+
+
+def _check_samples(kind, got, k, n, m, asg):
+    if not isinstance(got, list) or len(got) != m:
+        return "returns %r instead of a list of exactly %d samples" % (got, m)
+    seen = set()
+    for c in got:
+        try:
+            vs = [abs(l) for l in c] if kind == "cnf" else list(c[0])
+            key = tuple(sorted(c, key=abs)) if kind == "cnf" else (tuple(sorted(c[0])), c[1])
+        except (TypeError, IndexError):
+            return "returns the malformed sample %r" % (c,)
+        if len(vs) != k or len(set(vs)) != k or any(not (1 <= v <= n) for v in vs):
+            return "returns %r, which does not have %d distinct variables of 1..%d" % (c, k, n)
+        if kind == "xor" and c[1] not in (0, 1):
+            return "returns %r, whose constant is not 0 or 1" % (c,)
+        if key in seen:
+            return "returns the sample %r twice" % (c,)
+        seen.add(key)
+        if _spec_sat(kind, c if kind == "cnf" else (list(c[0]), c[1]), asg) is not True:
+            return "returns %r, which the planted assignment %s falsifies" % (c, asg)
+    return None
+
+
+def semantic_sampler(prog, mod):
+    """sample_* under scripted random stand-ins of three periods: exactly m distinct samples of k distinct variables of 1..n, all
+    satisfied by the planted assignments -- or ValueError exactly when fewer than m such samples exist"""
+    import itertools
+    from ..fold import Raised
+    kind = _kind(mod)
+    name = "sample_clauses" if kind == "cnf" else "sample_parities"
+    fi = prog.func(mod, name)
+    cnt = 0
+    for n in range(0, 4):
+        total = [[(i + 1) if (j >> i) & 1 else -(i + 1) for i in range(n)] for j in range(2 ** n)]
+        plans = [[], total[:1], total[-1:] + total[:1]] if n else [[]]
+        for k in range(0, n + 1):
+            for asg in plans:
+                if kind == "cnf":
+                    avail = sum(1 for dom in itertools.combinations(range(1, n + 1), k) for pol in itertools.product([-1, 1], repeat=k)
+                                if _spec_sat(kind, [p * v for p, v in zip(pol, dom)], asg) is True)
+                else:
+                    avail = sum(1 for X in itertools.combinations(range(1, n + 1), k) for b in (0, 1) if _spec_sat(kind, (list(X), b), asg) is True)
+                for m in sorted({0, 1, 2, avail - 1, avail, avail + 1, avail + 3} - {-1}):
+                    for period in ((1, 3, 17) if m in (2, avail) else (3,)):
+                        rnd = _Rng(period)
+                        f = _folder(prog, mod, rnd)
+                        what = "%s(k=%d, n=%d, m=%d, planted=%s)" % (name, k, n, m, asg)
+                        try:
+                            got = f.call_function(fi.node, [k, n, m, [list(a) for a in asg]], {})
+                        except Raised as x:
+                            if not x.cls.startswith("ValueError"):
+                                return False, "%s raises %s" % (what, x.cls)
+                            if m <= avail:
+                                return False, "%s raises ValueError although %d suitable samples exist" % (what, avail)
+                            cnt += 1
+                            continue
+                        if rnd.bad:
+                            return False, "%s: %s" % (what, rnd.bad)
+                        if m > avail:
+                            return False, "%s returns %r although only %d suitable samples exist: ValueError expected" % (what, got, avail)
+                        why = _check_samples(kind, list(got) if isinstance(got, (list, tuple)) else got, k, n, m, asg)
+                        if why:
+                            return False, "%s %s" % (what, why)
+                        cnt += 1
+    return True, "%s folded on %d (k, n, m, planted assignments, random script) instances" % (name, cnt)
+
+
+def semantic_generator(prog, mod):
+    """RandomKCNF / RandomKXOR on a stand-in formula class: invalid parameters refused with ValueError, n variables declared, exactly m
+    constraints inserted, each the sampler's"""
+    from ..fold import Raised
+    kind = _kind(mod)
+    name = "RandomKCNF" if kind == "cnf" else "RandomKXOR"
+    fi = prog.func(mod, name)
+
+    class FakeF:
+        def __init__(self, description=None, **kw):
+            self.n, self.cons, self.header = 0, [], {"description": description}
+
+        def update_variable_number(self, n):
+            self.n = max(self.n, n)
+
+        def add_clause(self, c, check=True):
+            c = list(c)
+            self.cons.append(c)
+            if check:
+                self.n = max([self.n] + [abs(l) for l in c])
+
+        def add_clauses_from(self, cs, check=True):
+            for c in cs:
+                self.add_clause(c, check=check)
+
+        def add_parity(self, X, b, check=True):
+            self.cons.append((list(X), b))
+            if check:
+                self.n = max([self.n] + [abs(l) for l in X])
+
+        def number_of_variables(self):
+            return self.n
+
+    def nni(v, name="x"):
+        if not isinstance(v, int) or isinstance(v, bool) or v < 0:
+            raise ValueError(name)
+    cnt = 0
+    for n in (-1, 0, 1, 2, 3):
+        for k in (-1, 0, 1, 2, 3, 4):
+            for m in (-1, 0, 2, 9):
+                for asg in (None, [], [[i for i in range(1, max(n, 0) + 1)]]):
+                    rnd = _Rng(17)
+                    f = _folder(prog, mod, rnd)
+                    f.globals = {"random": rnd, "non_negative_int": nni, "CNF": FakeF}
+                    what = "%s(k=%d, n=%d, m=%d, planted_assignments=%s)" % (name, k, n, m, asg)
+                    kw = {"formula_class": FakeF}
+                    if asg is not None:
+                        kw["planted_assignments"] = [list(a) for a in asg]
+                    invalid = n < 0 or k < 0 or m < 0 or k > n
+                    try:
+                        out = f.call_function(fi.node, [k, n, m], kw)
+                    except Raised as x:
+                        if not x.cls.startswith("ValueError"):
+                            return False, "%s raises %s" % (what, x.cls)
+                        if not invalid and m <= 2:
+                            import itertools
+                            a_ = asg or []
+                            if kind == "cnf":
+                                avail = sum(1 for dom in itertools.combinations(range(1, n + 1), k) for pol in itertools.product([-1, 1], repeat=k)
+                                            if _spec_sat(kind, [p * v for p, v in zip(pol, dom)], a_) is True)
+                            else:
+                                avail = sum(1 for X in itertools.combinations(range(1, n + 1), k) for b in (0, 1) if _spec_sat(kind, (list(X), b), a_) is True)
+                            if m <= avail:
+                                return False, "%s raises ValueError although the parameters are valid and %d samples exist" % (what, avail)
+                        cnt += 1
+                        continue
+                    if invalid:
+                        return False, "%s returns a formula although the parameters are invalid (negative, or k > n): ValueError expected" % what
+                    if not isinstance(out, FakeF):
+                        return False, "%s does not return the formula it built" % what
+                    if out.n != n:
+                        return False, "%s declares %d variables instead of %d" % (what, out.n, n)
+                    why = _check_samples(kind, out.cons, k, n, m, asg or [])
+                    if why:
+                        return False, "%s %s" % (what, why.replace("returns", "inserts"))
+                    cnt += 1
+    return True, "%s folded on %d parameter settings over a stand-in formula class" % (name, cnt)
+
+
+def _wrapped(which, shape, what):
+    def check(R, prog, mod, *names):
+        from ._shared import with_semantics
+        fi = prog.func(mod, names[0])
+        with_semantics(R, P, lambda T: shape(T, prog, mod, *names), verdict(prog, mod, which), what % names[0], fi, rule="SAMPLE-SEMANTICS")
+    return check
+
+
+check_generator = _wrapped("gen", _shape_generator, "%s refuses invalid parameters, declares n variables and inserts exactly m distinct suitable constraints")
+check_sampler = _wrapped("sampler", _shape_sampler, "%s returns exactly m distinct suitable samples or raises ValueError when there are too few")
+check_enumerator = _wrapped("enum", _shape_enumerator, "%s enumerates exactly the suitable samples")
+check_predicate = _wrapped("pred", _shape_predicate, "%s is true exactly when every planted assignment satisfies the sample")
